@@ -137,7 +137,7 @@ let show_devs (evs : DenM.dev list) : string =
       | DenM.DSoft WordsM.SErr -> "E"
       | DenM.DSoft WordsM.SWarn -> "W") evs)
 
-let run ?(spec = false) ?(scope = false) () =
+let run ?(spec = false) ?(scope = false) ?(simp = false) () =
   let hdr = List.map int_of_string (List.filter (fun s -> s <> "") (String.split_on_char ' ' (input_line stdin))) in
   match hdr with
   | [a; b; c; d; ra; rb; rs; fuel; limit] ->
@@ -156,6 +156,16 @@ let run ?(spec = false) ?(scope = false) () =
          let out =
            (try
               block_counter := 0;
+              if simp then begin
+                (* two trees separated by a TAB: as parsed, and as simplified by the implementation *)
+                match String.split_on_char '\t' line with
+                | [a; b] ->
+                  let ta = tree_of (parse a) in
+                  block_counter := 0;
+                  let tb = tree_of (parse b) in
+                  if SimplifyM.simplify ta = tb then "EQ" else "NE"
+                | _ -> "MODELERR bad simp line"
+              end else
               let t = tree_of (parse line) in
               if scope then
                 (match ScopeM.well_scoped tc t with
